@@ -479,7 +479,8 @@ def main(tier, t0):
         'conversions, is_normalized are enumerated for G1 and G2 with coordinates as symbolic monomials. Decided: identity short-circuits (O+Q=Q, P+O=P, 2O=O, '
         '-O=O), the equal-point test is the representation-independent pair X1 Z2^2 = X2 Z1^2, Y1 Z2^3 = Y2 Z1^3 (resp. the mixed form) and leads to double(), '
         'equality returns true exactly under both tests, conversions give (x,y,1) resp. (X/Z^2, Y/Z^3) with inversion only for Z != 0 and the Z = 1 fast path; '
-        'batch normalisation uses one filter (!is_normalized) in all three passes; default sub_assign(_mixed) = add(negate(copy)). NOT decided: the '
+        'batch normalisation decided for all 40 batches of <= 3 elements over {identity, normalised, general} (monomial domain: general -> (X/Z^2, Y/Z^3, 1), others untouched); '
+        'all of these as truth tables over the tested predicates (independent of how the tests are arranged); default sub_assign(_mixed) = add(negate(copy)). NOT decided: the '
         'general-position formulas dbl-2009-l / add-2007-bl / madd-2007-bl and the normalisation arithmetic of batch_normalization (polynomial identities over runtime values).',
         ['rustc MIR', 'base-field operation contracts (C08, C09)'],
         ['sums are opaque: formulas of the general branch are out of reach of this family'])
